@@ -4,6 +4,7 @@ cd "$(dirname "$0")/.."
 pat="${1:-C}"
 for d in seeded/${pat}*/; do
   id=$(basename "$d")
+  if grep -q '"neutralised_by_fix"' "$d/meta.json" 2>/dev/null; then echo "$id NEUTRALISED-BY-FIX (see meta.json)"; continue; fi
   prop=${id%%-*}
   k=${id#*-}; suffix=""
   case "$k" in *r2) suffix=r2; k=${k%r2};; *r3) suffix=r3; k=${k%r3};; esac
